@@ -105,6 +105,7 @@ CATALOG: Dict[str, Dict[str, Any]] = {
     "atlas.jet_first": {"b": "atlas", "q": "Select(DS, lambda e: e.Jets('J').First().pt() + sin(e.Jets('J').First().eta()))", "keys": [["xAOD::Jet", "pt"], ["xAOD::Jet", "eta"]]},
     "atlas.truth_vtx": {"b": "atlas", "q": "Select(SelectMany(DS, lambda e: e.TruthParticles('T')), lambda t: t.prodVtx().x())", "keys": [["xAOD::TruthParticle", "prodVtx"], ["xAODTruth::TruthVertex", "x"]]},
     "atlas.enum_red": {"b": "atlas", "q": f"Select({ATLAS_JETS}, lambda j: j.color(xAOD.Jet.Color.Red))", "keys": [["xAOD::Jet", "color"]], "needs": [MD_COLOR]},
+    "atlas.enum_blue": {"b": "atlas", "q": f"Select({ATLAS_JETS}, lambda j: j.color(xAOD.Jet.Color.Blue))", "keys": [["xAOD::Jet", "color"]], "needs": [MD_COLOR]},
     "atlas.myjets_pt": {"b": "atlas", "q": "Select(SelectMany(DS, lambda e: e.MyJets('mine')), lambda j: j.pt())", "keys": [["my::Jet", "pt"]], "needs": [MD_MYJETS]},
     "atlas.custom_muon_track": {"b": "atlas", "q": "Select(SelectMany(DS, lambda e: e.RecoMuons('mu')), lambda m: m.globalTrack().pt())", "keys": [["reco::Muon", "globalTrack"], ["reco::Track", "pt"], ["double", "pt"]], "needs": [MD_RECOMU_ATLAS], "end": "write"},
     "atlas.myf": {"b": "atlas", "q": f"Select({ATLAS_JETS}, lambda j: MyF(j.pt()))", "keys": [["xAOD::Jet", "pt"]], "needs": [MD_MYF]},
